@@ -15,11 +15,15 @@ every fault position `k` (no bound), every number of concurrent writers and ever
 What is **not** atomic (stated precisely, see `S3V/Findings/C19.lean` for kernel-checked witnesses, all replayed on
 the real code by the correspondence run):
 * one fault position leaves the temporary file: the future dropped after `File::create(tmp)` was issued and before
-  the `FileWriter` exists (`k = 1`; `k = 3` for `complete_multipart_upload`) — hence `_partial` below;
+  the `FileWriter` exists (`k = 1`; `k = n + 2` for `complete_multipart_upload` of `n` parts) — hence `_partial` below;
 * the metadata and checksum side files are written after the rename, each by its own `fs::write`: a fault between
   leaves new content with old side files, and a failing side-file write answers an error although the content
   was replaced. `C19_sidefiles_never_ahead` is the half that does hold;
-* `complete_multipart_upload` removes the upload record and replaces the metadata before it assembles the content.
+  `complete_multipart_upload` (since 0932917) has the same shape: it validates the part list and the part files, assembles
+  the content, renames it into place and only then moves the upload's metadata, removes the part files and the upload
+  record — so a complete that fails or is abandoned before the rename changes nothing at all
+  (`C19_complete_all_or_nothing`, `C19_failed_complete_changes_nothing`), and what can lag after the rename is again only
+  the side files.
 -/
 namespace S3V.C19
 open S3V S3V.FsWrite
@@ -82,7 +86,10 @@ theorem C19_sidefiles_never_ahead (c : Cfg) (old : Option Bytes) (m i : Side) (k
     obtain ⟨_, _, _, h4⟩ := frames_then_tail (putTail_ok c) c.frames
       { initSt old m i with tmp := true, owned := true } k' rfl rfl
     intro hne
-    obtain ⟨all, ha, h5⟩ := h4 (by simpa [initSt] using hne)
+    obtain ⟨all, ha, h5⟩ := h4 (by
+      rcases hne with hne | hne
+      · exact .inl (by simpa [initSt] using hne)
+      · exact .inr (.inl (by simpa [initSt] using hne)))
     exact ⟨all, ha, by simpa [initSt] using h5⟩
 
 /-- **A failed or rejected upload changes nothing (`put_object`).** If a body item is an error (transport error,
@@ -154,40 +161,113 @@ theorem C19_upload_part_all_or_nothing (c : Cfg) (old : Option Bytes) (m i : Sid
     · exact .inl h2
     · exact .inr ⟨all, ha, by simpa [initSt] using h2⟩
 
-/-- **All-or-nothing for the content written by `complete_multipart_upload`**, every fault position but the one
-    after `File::create` (here `k = 3`): no temporary file; the destination holds the previous content or — only if
-    every part exists and passes the size rule — the parts concatenated in order; before the rename the previous
-    content. (Its *metadata* and upload record are not covered: `S3V.Findings.C19.complete_metadata_early`.) -/
-theorem C19_complete_all_or_nothing (c : Cfg) (old : Option Bytes) (m i : Side) (k : Nat) (hk : k ≠ 3) :
+/-- **All-or-nothing for `complete_multipart_upload`** — content, metadata, upload record and part files —, at every
+    fault position but the one after `File::create` (here `k = n + 2` for `n` listed parts: `n` probes, the size rule,
+    `create`): no temporary file; the destination holds the previous content or — only if every part exists and passes
+    the size rule — the parts concatenated in order; up to the last step before the rename (`k ≤ 2n + 4`) it holds the
+    previous content; and as long as the destination has not been replaced by the complete new content nothing else
+    has changed either: the metadata and the checksum record are the previous object's, the upload record exists and no
+    part file has been removed (before 0932917 the upload record was removed and the metadata replaced first:
+    `S3V.Findings.C19.complete_metadata_early_*`, now regression facts). -/
+theorem C19_complete_all_or_nothing (c : Cfg) (old : Option Bytes) (m i : Side) (k : Nat) (hk : k ≠ c.parts.length + 2) :
     let s := dropAfter k (completeProg c) (initSt old m i)
     s.tmp = false ∧ (s.dest = old ∨ ∃ all, allParts c.parts = some all ∧ s.dest = some all) ∧
-      (k ≤ c.parts.length + 5 → s.dest = old) := by
-  have e : completeProg c = .consume :: .moveMeta c.hasMeta c.metaFails :: .create :: .adopt ::
-      (c.parts.map .part ++ [.mkdirs c.mkdirsFails, .rename c.renameFails]) := by
-    simp [completeProg]
-  simp only [dropAfter_eq, e]
-  rcases k with _ | _ | _ | _ | k
-  · simp [prefixRun, outSt, cleanup, initSt]
-  · simp [prefixRun, exec, outSt, cleanup, initSt]
-  · cases c.hasMeta <;> cases c.metaFails <;> simp [prefixRun, exec, outSt, cleanup, initSt]
-  · exact absurd rfl hk
-  · cases hm : c.hasMeta <;> cases hf : c.metaFails
-    all_goals first
-      | (simp [prefixRun, exec, outSt, cleanup, initSt]; done)
-      | (simp only [prefixRun, exec, Bool.not_false, Bool.not_true, Bool.false_eq_true, ↓reduceIte]
-         obtain ⟨h1, h2, h3⟩ := parts_then_tail (completeTail_ok c) c.parts
-           { (initSt old m i) with uploadRec := false, tmp := true, owned := true } k rfl rfl
-         refine ⟨h1, ?_, fun hk' => h3 (by omega)⟩
-         rcases h2 with h2 | ⟨all, ha, h2⟩
-         · exact .inl h2
-         · exact .inr ⟨all, ha, by simpa [initSt] using h2⟩)
-      | (simp only [prefixRun, exec, Bool.not_false, Bool.not_true, Bool.false_eq_true, ↓reduceIte]
-         obtain ⟨h1, h2, h3⟩ := parts_then_tail (completeTail_ok c) c.parts
-           { (initSt old m i) with uploadRec := false, mdata := .new, tmp := true, owned := true } k rfl rfl
-         refine ⟨h1, ?_, fun hk' => h3 (by omega)⟩
-         rcases h2 with h2 | ⟨all, ha, h2⟩
-         · exact .inl h2
-         · exact .inr ⟨all, ha, by simpa [initSt] using h2⟩)
+      (k ≤ 2 * c.parts.length + 4 → s.dest = old) ∧
+      ((s.mdata ≠ m ∨ s.info ≠ i ∨ s.uploadRec = false ∨ s.partsGone ≠ 0) →
+        ∃ all, allParts c.parts = some all ∧ s.dest = some all) := by
+  simp only [dropAfter_eq, completeProg_eq]
+  rcases probes_then (.create :: .adopt ::
+      (c.parts.map .part ++ .mkdirs c.mkdirsFails :: .rename c.renameFails :: completePost c))
+      (c.parts.all Part.fine) c.parts (initSt old m i) k with h | ⟨hv, k', rfl, h⟩
+  · -- still validating, or the validation failed: nothing has happened
+    rw [h]; simp [cleanup, initSt]
+  · rw [h]
+    have hsome : (allParts c.parts).isSome = true := by rw [allParts_valid]; exact hv
+    obtain ⟨all, hall⟩ := Option.isSome_iff_exists.mp hsome
+    rcases create_adopt_then (rest := c.parts.map .part ++ .mkdirs c.mkdirsFails :: .rename c.renameFails :: completePost c)
+        (s := initSt old m i) ⟨rfl, rfl⟩ k' (by omega) with ⟨_, h⟩ | ⟨k'', rfl, h⟩
+    · rw [h]; simp [initSt]
+    · rw [h]
+      obtain ⟨h1, h2, h3, h4⟩ := parts_then_tail (completeTail_ok c) c.parts all hall
+        { initSt old m i with tmp := true, owned := true } k'' rfl rfl
+      refine ⟨h1, ?_, fun hk' => h3 (by omega), fun hne => ⟨all, hall, ?_⟩⟩
+      · rcases h2 with h2 | h2
+        · exact .inl h2
+        · exact .inr ⟨all, hall, by simpa [initSt] using h2⟩
+      · have := h4 (by
+          rcases hne with hne | hne | hne | hne
+          · exact .inl (by simpa [initSt] using hne)
+          · exact .inr (.inl (by simpa [initSt] using hne))
+          · exact .inr (.inr (.inl (by rw [hne]; simp [initSt])))
+          · exact .inr (.inr (.inr (by simpa [initSt] using hne))))
+        simpa [initSt] using this
+
+/-- **A failed `complete_multipart_upload` changes nothing.** If a listed part was never uploaded (`InvalidPart`), a part
+    other than the last is below the minimum size (`EntityTooSmall`), or `done()` fails at either of its two steps, the
+    call answers an error and destination, metadata, checksum record, upload record and part files are exactly as
+    before, with no temporary file: the upload can be completed later. -/
+theorem C19_failed_complete_changes_nothing (c : Cfg) (old : Option Bytes) (m i : Side)
+    (h : allParts c.parts = none ∨ c.mkdirsFails = true ∨ c.renameFails = true) :
+    (run (completeProg c) (initSt old m i)).1 ≠ .ok ∧
+    (run (completeProg c) (initSt old m i)).2.dest = old ∧
+    (run (completeProg c) (initSt old m i)).2.tmp = false ∧
+    (run (completeProg c) (initSt old m i)).2.mdata = m ∧
+    (run (completeProg c) (initSt old m i)).2.info = i ∧
+    (run (completeProg c) (initSt old m i)).2.uploadRec = true ∧
+    (run (completeProg c) (initSt old m i)).2.partsGone = 0 := by
+  rw [completeProg_eq]
+  obtain ⟨code, hcode, hr⟩ := run_probes (.create :: .adopt ::
+      (c.parts.map .part ++ .mkdirs c.mkdirsFails :: .rename c.renameFails :: completePost c))
+      (c.parts.all Part.fine) c.parts (initSt old m i)
+  rw [hr]
+  cases hall : allParts c.parts with
+  | none =>
+    have : (c.parts.all Part.there && c.parts.all Part.fine) = false := by
+      have := allParts_valid c.parts
+      rw [hall] at this
+      exact this.symm
+    rw [this]
+    simp [cleanup, initSt, hcode]
+  | some all =>
+    have : (c.parts.all Part.there && c.parts.all Part.fine) = true := by
+      have := allParts_valid c.parts
+      rw [hall] at this
+      exact this.symm
+    rw [this]
+    simp only [↓reduceIte, run, exec]
+    rw [run_parts _ c.parts all hall]
+    rcases h with h | h | h
+    · rw [hall] at h; cases h
+    · rw [h]; simp [run, exec, cleanup, initSt]
+    · rw [h]; cases c.mkdirsFails <;> simp [run, exec, cleanup, initSt]
+
+/-- **A successful `complete_multipart_upload` stores everything.** Every listed part exists and passes the size rule, no
+    fault: the answer is OK, the destination holds the parts concatenated in order, the metadata is the upload's if it has
+    any, the upload record and every listed part file are gone, no temporary file. -/
+theorem C19_successful_complete (c : Cfg) (old : Option Bytes) (m i : Side) (all : Bytes)
+    (hb : allParts c.parts = some all) (h1 : c.mkdirsFails = false) (h2 : c.renameFails = false)
+    (h3 : c.hasMeta = true → c.metaFails = false) :
+    (run (completeProg c) (initSt old m i)).1 = .ok ∧
+    (run (completeProg c) (initSt old m i)).2.dest = some all ∧
+    (run (completeProg c) (initSt old m i)).2.tmp = false ∧
+    (run (completeProg c) (initSt old m i)).2.mdata = (if c.hasMeta then .new else m) ∧
+    (run (completeProg c) (initSt old m i)).2.info = i ∧
+    (run (completeProg c) (initSt old m i)).2.uploadRec = false ∧
+    (run (completeProg c) (initSt old m i)).2.partsGone = c.parts.length := by
+  rw [completeProg_eq]
+  obtain ⟨code, _, hr⟩ := run_probes (.create :: .adopt ::
+      (c.parts.map .part ++ .mkdirs c.mkdirsFails :: .rename c.renameFails :: completePost c))
+      (c.parts.all Part.fine) c.parts (initSt old m i)
+  have hv : (c.parts.all Part.there && c.parts.all Part.fine) = true := by
+    have := allParts_valid c.parts
+    rw [hb] at this
+    exact this.symm
+  rw [hr, hv]
+  simp only [↓reduceIte, run, exec]
+  rw [run_parts _ c.parts all hb, h1, h2]
+  simp only [run, exec, Bool.false_eq_true, ↓reduceIte]
+  rw [run_completePost c h3]
+  cases c.hasMeta <;> simp [cleanup, initSt]
 
 /-- **`done()` is guarded to its end.** For all three writing operations: if `create_dir_all(parent)` fails (a parent
     of the destination is a plain file) or the rename fails (the destination is a directory), the call answers an
@@ -217,32 +297,13 @@ theorem C19_done_failure_guarded (c : Cfg) (old : Option Bytes) (m i : Side)
       rcases h with h | h <;> rw [h]
       · cases c.renameFails <;> simp [run, exec, cleanup, initSt]
       · cases c.mkdirsFails <;> simp [run, exec, cleanup, initSt]
-  · have e : completeProg c = .consume :: .moveMeta c.hasMeta c.metaFails :: .create :: .adopt ::
-        (c.parts.map .part ++ [.mkdirs c.mkdirsFails, .rename c.renameFails]) := by
-      simp [completeProg]
-    rw [e]
-    cases hm : c.hasMeta <;> cases hf : c.metaFails <;> simp only [run, exec, Bool.not_false, Bool.not_true,
-      Bool.false_eq_true, ↓reduceIte]
-    all_goals first
-      | (simp [cleanup, initSt]; done)
-      | (obtain ⟨p, a, code, hcode, hr⟩ := run_parts c.parts [.mkdirs c.mkdirsFails, .rename c.renameFails]
-           { initSt old m i with uploadRec := false, tmp := true, owned := true }
-         rw [hr]
-         cases allParts c.parts with
-         | none => simp [cleanup, initSt, hcode]
-         | some all =>
-           rcases h with h | h <;> rw [h]
-           · cases c.renameFails <;> simp [run, exec, cleanup, initSt]
-           · cases c.mkdirsFails <;> simp [run, exec, cleanup, initSt])
-      | (obtain ⟨p, a, code, hcode, hr⟩ := run_parts c.parts [.mkdirs c.mkdirsFails, .rename c.renameFails]
-           { initSt old m i with uploadRec := false, mdata := .new, tmp := true, owned := true }
-         rw [hr]
-         cases allParts c.parts with
-         | none => simp [cleanup, initSt, hcode]
-         | some all =>
-           rcases h with h | h <;> rw [h]
-           · cases c.renameFails <;> simp [run, exec, cleanup, initSt]
-           · cases c.mkdirsFails <;> simp [run, exec, cleanup, initSt])
+  · cases hall : allParts c.parts with
+    | none =>
+      have := C19_failed_complete_changes_nothing c old m i (.inl hall)
+      exact ⟨this.1, this.2.1, this.2.2.1⟩
+    | some all =>
+      have := C19_failed_complete_changes_nothing c old m i (.inr h)
+      exact ⟨this.1, this.2.1, this.2.2.1⟩
 
 /-- **Concurrent writers: exactly one writer's bytes.** `n` writers (any `n`, each with any frames) put to one
     key; the scheduler interleaves their atomic steps (draw a counter value — `fetch_add`; create the temporary
